@@ -269,6 +269,8 @@ pub fn powf_sem64(b: f64, e: f64) -> f64 {
         b * b
     } else if e == 3.0 {
         b * b * b
+    } else if e == 4.0 {
+        (b * b) * (b * b)
     } else if e == 0.5 {
         b.sqrt()
     } else {
